@@ -197,7 +197,7 @@ def gen_case(rng, root_user, big=False):
             else:
                 a["uid"], a["gid"] = os.getuid(), os.getgid()
         elif rng.random() < 0.3:
-            a["uid"] = 0 if root_user else os.getuid()     # only one side of the pair set
+            a["uid"] = rng.choice([1000, 0]) if root_user else os.getuid()     # only one side of the pair set
         if rng.random() < 0.93:
             t[0] += rng.randint(1, 50)
             a["mtime"] = t[0]
@@ -644,7 +644,7 @@ def main(chk: Check):
              "mtime update of parent directories are not modelled (a directory mtime at/after the start of the "
              "run is compared as a wildcard)")
 
-    cases = corpus_cases(chk) + [gen_case(chk.rng, root_user, big=chk.thorough) for _ in range(int(os.environ.get("VERIF_C18_CASES", 0)) or chk.n(220, 1200))]
+    cases = corpus_cases(chk) + [gen_case(chk.rng, root_user, big=chk.thorough) for _ in range(int(os.environ.get("VERIF_C18_CASES", 0)) or chk.n(180, 1200))]
     work = chk.scratch / "c18"
     work.mkdir()
     rows, metas = [], []
